@@ -84,6 +84,18 @@ def CurrentPulse(base, t_off):
     return terminal_currents
 
 
+def CurrentSoftStart(base, tau, t0=0.0):
+    """Balanced currents switched on smoothly: I_k(t) = base_k * tanh((t + t0) / tau); exactly base_k once (t + t0) > 19.1 tau
+    (tanh is 1.0 in double precision there)."""
+    base = dict(base)
+
+    def terminal_currents(t):
+        f = math.tanh((t + t0) / tau)
+        return {k: v * f for k, v in base.items()}
+
+    return terminal_currents
+
+
 def CurrentSwitch(phases, times, persistent=False):
     """Piecewise-constant balanced currents: phases[i] for times[i-1] <= t < times[i].
     persistent=True: the function hands out ITS OWN pre-built dicts (as `lambda t: levels[i]` does), not copies."""
@@ -174,6 +186,8 @@ def build_drive(d, device, options):
         tc = CurrentPulse(c["values"], c["t_off"])
     elif c["kind"] == "switch":
         tc = CurrentSwitch(c["phases"], c["times"], persistent=bool(c.get("persistent")))
+    elif c["kind"] == "softstart":
+        tc = CurrentSoftStart(c["values"], c["tau"], c.get("t0", 0.0))
     else:
         raise ValueError(c["kind"])
     if callable(tc) and c.get("form", "function") != "function":
@@ -226,6 +240,9 @@ def rescale_drive_times(drive, f):
         c["w"] = c["w"] / f
     if "t_off" in c:
         c["t_off"] = c["t_off"] * f
+    for key in ("tau", "t0"):
+        if key in c:
+            c[key] = c[key] * f
     if c.get("kind") == "switch":
         c["times"] = [t * f for t in c["times"]]
     return drive
@@ -273,6 +290,9 @@ def currents_at(d, t):
         return dict(c["values"])
     if c["kind"] == "pulse":
         return dict(c["values"]) if t < c["t_off"] else {k: 0.0 for k in c["values"]}
+    if c["kind"] == "softstart":
+        f = math.tanh((t + c.get("t0", 0.0)) / c["tau"])
+        return {k: v * f for k, v in c["values"].items()}
     if c["kind"] == "switch":
         # piecewise constant: phases[i] holds for times[i-1] <= t < times[i]
         i = sum(1 for x in c["times"] if t >= x)
